@@ -56,6 +56,7 @@ type outRec struct {
 	total   int
 	entered int   // calls that reached the output (possibly still blocked on the gate)
 	calls   []int // size of each completed call (influx: points per Write)
+	keyed   map[int][]int // minflux: per database, the size of each Write call the client was handed (accepted or rejected)
 }
 
 func newOutRec() *outRec { return &outRec{ids: map[int64]int{}} }
@@ -73,6 +74,47 @@ func (r *outRec) add(ids []int64) {
 	r.calls = append(r.calls, len(ids))
 	r.mu.Unlock()
 }
+
+// addKeyed records one Write call to database k of a multi-database output (whether the client accepts it or not)
+func (r *outRec) addKeyed(k int, ids []int64) {
+	r.mu.Lock()
+	if r.keyed == nil {
+		r.keyed = map[int][]int{}
+	}
+	r.keyed[k] = append(r.keyed[k], len(ids))
+	r.mu.Unlock()
+	r.add(ids)
+}
+
+// keyedCalls prints, per database 0..keys-1, `<k><h|r>@<size>x<count>.<size>x<count>…` (`-` = no call), joined by `/`
+func (r *outRec) keyedCalls(keys, rej int) string {
+	r.mu.Lock()
+	defer r.mu.Unlock()
+	var out []string
+	for k := 0; k < keys; k++ {
+		h := "h"
+		if rej&(1<<uint(k)) != 0 {
+			h = "r"
+		}
+		cl := r.keyed[k]
+		var cs []string
+		for i := 0; i < len(cl); {
+			j := i
+			for j < len(cl) && cl[j] == cl[i] {
+				j++
+			}
+			cs = append(cs, strconv.Itoa(cl[i])+"x"+strconv.Itoa(j-i))
+			i = j
+		}
+		c := "-"
+		if len(cs) > 0 {
+			c = strings.Join(cs, ".")
+		}
+		out = append(out, strconv.Itoa(k)+h+"@"+c)
+	}
+	return strings.Join(out, "/")
+}
+
 func (r *outRec) snapshot() (total, distinct, entered int) {
 	r.mu.Lock()
 	defer r.mu.Unlock()
@@ -106,6 +148,8 @@ type httpSink struct {
 type sinkTarget struct {
 	rec  *outRec
 	gate *gate
+	keys int // > 0: a multi-database influxDBOut (minflux): databases db0 … db<keys-1>
+	rej  int // bit mask of the databases whose writes are rejected
 }
 
 var (
@@ -229,6 +273,26 @@ func (c *fakeClient) Write(bp influxdb.BatchPoints) error {
 		} else {
 			ids = append(ids, -1)
 		}
+	}
+	if t.keys > 0 {
+		// a multi-database output: the batch must go to the database (and retention policy) its points came from;
+		// a point handed to another destination does not count as handed over
+		k := -1
+		if db := bp.Database(); strings.HasPrefix(db, "db") && bp.RetentionPolicy() == "rp" {
+			if v, err := strconv.Atoi(db[2:]); err == nil && v >= 0 && v < t.keys {
+				k = v
+			}
+		}
+		for j, id := range ids {
+			if k < 0 || id < 0 || int(id)%t.keys != k {
+				ids[j] = -1
+			}
+		}
+		t.rec.addKeyed(k, ids)
+		if k < 0 || t.rej&(1<<uint(k)) != 0 {
+			return errors.New("database rejects the write")
+		}
+		return nil
 	}
 	t.rec.add(ids)
 	return nil
